@@ -703,19 +703,21 @@ def r18_clash_same_scope(c, facts, rule='C08.R18'):
     for q, l in sorted(facts.by_qname.items()):
         if not q.startswith('oal_compiler::resolve::') or l[0].kind == 'Closure' or not l[0].mir or q not in (facts.known_fns_or_aliases() if hasattr(facts, 'known_fns_or_aliases') else [q]):
             continue
-        fn = facts.normalised(l[0])
-        errs = [b for b, blk in fn.blocks() for st in blk['stmts'] if st['s'] == 'assign' and st['rv']['r'] == 'aggr' and st['rv'].get('adt', '').endswith('errors::Kind') and st['rv'].get('variant') == 'InvalidIdentifier']
-        if not errs:
-            continue
-        decl = [b for b, t in P.call_blocks(fn, 'env::Env::declare')]
-        free = fn.reachable_from(0, avoid=decl)
-        for b in errs:
-            n += 1
-            inst = {'fn': q, 'block': b}
-            if b in free:
-                c.bad(R, 'clash-without-declare:' + q.split('::')[-1], '%s raises "identifier already exists" on a path that has not asked Env::declare: the verdict comes from something that sees the enclosing scopes too, so a binder that shadows a declaration, an imported name or a built-in is rejected' % q, **inst)
-            else:
-                c.ok(R, inst)
+        # the function itself (new private helpers spliced in) and its closures (`declarations().try_for_each(|decl| ..)`),
+        # each a unit of its own: the closure that raises the error is the one that asked Env::declare
+        for fn in [facts.normalised(l[0])] + [g for g in facts.closures_of(l[0]) if g.mir]:
+            errs = [b for b, blk in fn.blocks() for st in blk['stmts'] if st['s'] == 'assign' and st['rv']['r'] == 'aggr' and st['rv'].get('adt', '').endswith('errors::Kind') and st['rv'].get('variant') == 'InvalidIdentifier']
+            if not errs:
+                continue
+            decl = [b for b, t in P.call_blocks(fn, 'env::Env::declare')]
+            free = fn.reachable_from(0, avoid=decl)
+            for b in errs:
+                n += 1
+                inst = {'fn': fn.qname, 'block': b}
+                if b in free:
+                    c.bad(R, 'clash-without-declare:' + q.split('::')[-1], '%s raises "identifier already exists" on a path that has not asked Env::declare: the verdict comes from something that sees the enclosing scopes too, so a binder that shadows a declaration, an imported name or a built-in is rejected' % fn.qname, **inst)
+                else:
+                    c.ok(R, inst)
     c.floor(R, 'sites raising InvalidIdentifier in the resolver', n, 2)
 
 
